@@ -47,7 +47,7 @@ func valsetConfig(t *rapid.T) sim.Config {
 func init() {
 	w := map[string]int{
 		"nextBlock": 26, "depositLST": 8, "delegate": 14, "undelegate": 10, "optOut": 5, "optIn": 8, "setKey": 6,
-		"slash": 3, "jail": 2, "unjail": 2, "associate": 2, "dissociate": 2, "nativeDelegate": 2,
+		"slash": 3, "jail": 2, "unjail": 1, "msgUnjail": 4, "associate": 2, "dissociate": 2, "nativeDelegate": 2,
 	}
 	registerWorldProp(&WorldProp{
 		ID: "C06",
